@@ -105,6 +105,10 @@ def generate(seed, mode):
             ops.append({'op': 'cnprov', 'c': o.randrange(16), 'x': o.randrange(nI), 'k': k})
         elif r < 0.91 and nf:
             ops.append({'op': 'fimpl', 'f': o.randrange(16), 'xs': xs(2, True), 'k': k})
+        elif r < 0.925:
+            # an *instance* declared as a factory (implementer(...)(ob) stores what calling it gives in ob.__implemented__):
+            # says nothing about what ob provides, nor about what super proxies of ob see
+            ops.append({'op': 'obimpl', 'o': o.randrange(16), 'xs': xs(2, True), 'k': k})
         elif r < 0.95:
             ops.append({'op': 'drop', 'o': o.randrange(16), 'k': k})
         else:
@@ -636,6 +640,17 @@ def execute(program, ctx, mode):
                 else:
                     implementer_only(*args)(classes[c])
                 ctx.log(step, 'conly', c, xs, op['v'])
+            elif name == 'obimpl':
+                live = [i for i, ob in enumerate(obs) if ob is not None]
+                if not live:
+                    continue
+                o = live[op['o'] % len(live)]
+                try:
+                    implementer(*[ifs[x % nI] for x in op['xs']])(obs[o])
+                    ctx.probe('instance-declared-as-factory')
+                except TypeError:
+                    pass            # no __dict__ (slots): cannot carry the declaration
+                ctx.log(step, 'obimpl', o, op['xs'])
             elif name in ('dprov', 'aprov', 'nprov'):
                 live = [i for i, ob in enumerate(obs) if ob is not None]
                 if not live:
